@@ -209,10 +209,10 @@ def plan(tier, seed):
         shards.append({"kind": "pairs", "part": p, "parts": 6})
     shards.append({"kind": "malformed"})
     shards.append({"kind": "equivalence"})
-    n_rand = 6 if tier == "quick" else 48
+    n_rand = 16 if tier == "quick" else 64
     for i in range(n_rand):
         shards.append({"kind": "random", "seed": seed * 7727 + i * 611953 + 1,
-                       "n": 400 if tier == "quick" else 5000})
+                       "n": 1500 if tier == "quick" else 8000})
     return shards
 
 
